@@ -5,7 +5,6 @@ package common
 
 //@ func crypto/common.GetHash(pt, key, usage, e) (h, err)
 //@   pure
-//@   trusted_frame returned slices are not tracked as fresh; in-place append into spare capacity cannot be excluded
 //@   requires len(usage) > 0
 //@   requires et_known(tagof(e))
 //@   ensures err == nil ==> len(h) == et_hmacbits(tagof(e)) / 8
@@ -13,13 +12,11 @@ package common
 //@   ensures err != nil ==> len(h) == 0
 //@ func crypto/common.GetChecksumHash(b, key, usage, e) (h, err)
 //@   pure
-//@   trusted_frame returned slices are not tracked as fresh; in-place append into spare capacity cannot be excluded
 //@   requires et_known(tagof(e))
 //@   ensures err == nil ==> len(h) == et_hmacbits(tagof(e)) / 8
 //@   ensures err == nil ==> bytes(h) == simplified_cksum(tagof(e), bytes(key), usage_const(usage, 0x99), bytes(b))
 //@ func crypto/common.GetIntegrityHash(b, key, usage, e) (h, err)
 //@   pure
-//@   trusted_frame returned slices are not tracked as fresh; in-place append into spare capacity cannot be excluded
 //@   requires et_known(tagof(e))
 //@   ensures err == nil ==> len(h) == et_hmacbits(tagof(e)) / 8
 //@   ensures err == nil ==> bytes(h) == simplified_cksum(tagof(e), bytes(key), usage_const(usage, 0x55), bytes(b))
@@ -28,28 +25,23 @@ package common
 //@   pure
 //@   requires et_known(tagof(e))
 //@   ensures ok ==> bytes(chksum) == simplified_cksum(tagof(e), bytes(key), usage_const(usage, 0x99), bytes(msg))
-//@   trusted_frame returned slices are not tracked as fresh; in-place append into spare capacity cannot be excluded
 //@ func crypto/common.getUsage(un, o) (r)
 //@   pure
-//@   trusted_frame returned slices are not tracked as fresh; in-place append into spare capacity cannot be excluded
 //@   ensures len(r) == 5
 //@   ensures r[0] == byte(un >> 24) && r[1] == byte(un >> 16) && r[2] == byte(un >> 8) && r[3] == byte(un) && r[4] == o
 //@   ensures bytes(r) == usage_const(un, o)
 //@ func crypto/common.GetUsageKc(un) (r)
 //@   pure
-//@   trusted_frame returned slices are not tracked as fresh; in-place append into spare capacity cannot be excluded
 //@   ensures len(r) == 5
 //@   ensures r[0] == byte(un >> 24) && r[1] == byte(un >> 16) && r[2] == byte(un >> 8) && r[3] == byte(un) && r[4] == 0x99
 //@   ensures bytes(r) == usage_const(un, 0x99)
 //@ func crypto/common.GetUsageKe(un) (r)
 //@   pure
-//@   trusted_frame returned slices are not tracked as fresh; in-place append into spare capacity cannot be excluded
 //@   ensures len(r) == 5
 //@   ensures r[0] == byte(un >> 24) && r[1] == byte(un >> 16) && r[2] == byte(un >> 8) && r[3] == byte(un) && r[4] == 0xAA
 //@   ensures bytes(r) == usage_const(un, 0xAA)
 //@ func crypto/common.GetUsageKi(un) (r)
 //@   pure
-//@   trusted_frame returned slices are not tracked as fresh; in-place append into spare capacity cannot be excluded
 //@   ensures len(r) == 5
 //@   ensures r[0] == byte(un >> 24) && r[1] == byte(un >> 16) && r[2] == byte(un >> 8) && r[3] == byte(un) && r[4] == 0x55
 //@   ensures bytes(r) == usage_const(un, 0x55)
